@@ -65,6 +65,10 @@ Proof.
   intros _. exists a0, a'. rewrite HP. auto.
 Qed.
 
+Lemma validated_intro : forall ev a0 a,
+  o_infer O ev = None -> o_schema O ev = inr a0 -> o_post O a0 = inr a -> validated O ev = Some a.
+Proof. intros ev a0 a H1 H2 H3. unfold validated. rewrite H1, H2, H3. reflexivity. Qed.
+
 Lemma is_valid_stage : forall ev, is_valid O ev = true <-> stage_of ev = SValid.
 Proof.
   intros ev. unfold is_valid. split.
@@ -121,18 +125,19 @@ Proof.
     unfold is_valid. unfold event_clean in Hclean. unfold stage_of in Hclean. unfold validated.
     destruct (o_infer O x) as [xi|] eqn:HI; simpl.
     + split; [exact Hc | exact Ht].
-    + destruct (o_schema O x) as [xs|a0] eqn:HS; simpl.
+    + unfold run_create; simpl.
+      destruct (o_schema O x) as [xs|a0] eqn:HS.
       * (* schema failure: clean only when debug is off *)
         destruct (c_debug cfg) eqn:D; [discriminate|].
-        split; [intros; discriminate | exact Ht].
-      * unfold run_create; simpl. destruct crt; simpl; rewrite HS; simpl;
-        (destruct (o_post O a0) as [[p xp]|a1] eqn:HP; simpl; [discriminate|]);
-        (destruct (o_text O s) as [xt|] eqn:HT; simpl;
-         [ unfold text_ok in Hclean; rewrite HT in Hclean; simpl in Hclean;
-           destruct (c_debug cfg) eqn:D; [discriminate|];
-           split; [intros; discriminate | exists a1; unfold validated; rewrite HI, HS, HP; auto]
-         | destruct (o_check O (Some a1) s); simpl;
-           (split; [intros; reflexivity | exists a1; unfold validated; rewrite HI, HS, HP; auto]) ]).
+        destruct crt; simpl; rewrite ?HS; simpl; (split; [intros; congruence | exact Ht]).
+      * destruct (o_post O a0) as [[p xp]|a1] eqn:HP; [discriminate|].
+        destruct (o_text O s) as [xt|] eqn:HT.
+        -- unfold text_ok in Hclean; rewrite HT in Hclean; simpl in Hclean.
+           destruct (c_debug cfg) eqn:D; [discriminate|].
+           destruct crt; simpl; rewrite ?HS; simpl; rewrite ?HP; simpl; rewrite ?HT; simpl;
+           (split; [intros; congruence | exists a1; split; [eapply validated_intro; eauto | split; reflexivity]]).
+        -- destruct crt; simpl; rewrite ?HS; simpl; rewrite ?HP; simpl; rewrite ?HT; simpl;
+           (destruct (o_check O (Some a1) s); simpl; (split; [intros; reflexivity | exists a1; split; [eapply validated_intro; eauto | split; reflexivity]])).
   - (* no expect value: only AbstractGrader.__call__ runs *)
     unfold call, begin_call; simpl.
     destruct (o_text O s) as [xt|] eqn:HT; simpl.
@@ -173,8 +178,8 @@ Proof.
         -- split; [reflexivity | exact Ht].
         -- unfold run_create; simpl.
            destruct (o_text O s) as [xt|] eqn:HT; simpl.
-           ++ split; [reflexivity | exists a1; auto].
-           ++ destruct (o_check O (Some a1) s); simpl; (split; [reflexivity | exists a1; auto]).
+           ++ split; [reflexivity | exists a1; split; [eapply validated_intro; eauto | split; reflexivity]].
+           ++ destruct (o_check O (Some a1) s); simpl; (split; [reflexivity | exists a1; split; [eapply validated_intro; eauto | split; reflexivity]]).
   - unfold call, begin_call; simpl.
     destruct (o_text O s) as [xt|] eqn:HT; simpl.
     + split; [reflexivity | exact Ht].
@@ -260,4 +265,392 @@ Proof.
         (destruct (o_check O None s) as [v ls|xc ls]; simpl; unfold wrap; rewrite ?D; reflexivity).
 Qed.
 
+(* repaired protocol *)
+Lemma repaired_outcome : forall last m e s,
+  inv_repaired last m ->
+  snd (callP call_prog_repaired m e s)
+  = match e with
+    | Some _ => snd (callP call_prog_repaired (init_state None) (effective last e) s)
+    | None => strip_inferred (snd (callP call_prog_repaired (init_state None) (effective last e) s))
+    end.
+Proof.
+  intros last m e s [Hc Ht]. break_state m. subst crt.
+  destruct e as [x|].
+  - assert (G : inf || negb (match ans with Some _ => true | None => false end) = true).
+    { unfold answers_track in Ht. destruct last; simpl in Ht.
+      - destruct Ht as (a & _ & -> & ->). reflexivity.
+      - destruct Ht as [-> ->]. reflexivity. }
+    unfold call, begin_call; simpl. unfold has_answers; simpl. rewrite G. simpl.
+    destruct (o_infer O x) as [xi|] eqn:HI; simpl; [reflexivity|].
+    destruct (o_schema O x) as [xs|a0] eqn:HS; simpl; [reflexivity|].
+    destruct (o_post O a0) as [[p xp]|a1] eqn:HP; simpl; [reflexivity|].
+    unfold run_create; simpl.
+    destruct (o_text O s) as [xt|] eqn:HT; simpl; [reflexivity|].
+    destruct (o_check O (Some a1) s); simpl; reflexivity.
+  - destruct last as [y|]; simpl in Ht.
+    + destruct Ht as (a & V & -> & ->).
+      pose proof (validated_stage y a V) as SV.
+      destruct (stage_valid y SV) as (a0 & a' & HI & HS & HP & V').
+      rewrite V in V'. inversion V'; subst a'.
+      unfold call, begin_call, effective; simpl. unfold has_answers; simpl.
+      rewrite HI; simpl. rewrite HS; simpl. rewrite HP; simpl.
+      unfold run_create; simpl.
+      destruct (o_text O s) as [xt|] eqn:HT; simpl; [reflexivity|].
+      destruct (o_check O (Some a) s) as [v ls|xc ls]; simpl; [|reflexivity].
+      destruct (c_debug cfg); simpl; [|reflexivity].
+      f_equal. f_equal.
+      destruct dm; simpl; rewrite ?filter_app'; simpl; rewrite filter_chk; reflexivity.
+    + destruct Ht as [-> ->].
+      unfold call, begin_call, effective; simpl.
+      destruct (o_text O s) as [xt|] eqn:HT; simpl; [reflexivity|].
+      unfold run_create; simpl.
+      destruct (o_check O None s) as [v ls|xc ls]; simpl; [|reflexivity].
+      destruct (c_debug cfg); simpl; [|reflexivity].
+      f_equal. f_equal.
+      destruct dm; simpl; rewrite ?filter_app'; simpl; rewrite filter_chk; reflexivity.
+Qed.
+
+(* ---------------------------------------------------------------------------------------------- *)
+(* graders with configured answers: expect is ignored, for both programs, all histories            *)
+(* ---------------------------------------------------------------------------------------------- *)
+Definition inv_configured (a : A) (m : st) : Prop :=
+  st_answers m = Some a /\ st_inferring m = false /\ st_created m = false.
+
+Definition known_prog (p : call_program) : Prop := p = call_prog_faithful \/ p = call_prog_repaired.
+
+Lemma configured_step : forall p a m e s, known_prog p -> inv_configured a m ->
+  inv_configured a (fst (callP p m e s))
+  /\ snd (callP p m e s) = snd (callP p (init_state (Some a)) None s).
+Proof.
+  intros p a m e s Hp (Ha & Hi & Hc). break_state m. subst ans inf crt.
+  assert (G : forall b, b && (false || negb true) = false) by (intros []; reflexivity).
+  destruct Hp as [-> | ->];
+  unfold call, begin_call; simpl; unfold has_answers; simpl; rewrite G; simpl;
+  (destruct (o_text O s) as [xt|] eqn:HT; simpl;
+   [ split; [repeat split | reflexivity]
+   | unfold run_create; simpl; destruct (o_check O (Some a) s); simpl; (split; [repeat split | reflexivity]) ]).
+Qed.
+
+Lemma configured_run : forall p a h m, known_prog p -> inv_configured a m -> inv_configured a (runP p m h).
+Proof.
+  intros p a h. induction h as [|[e s] h IH]; intros m Hp Hinv; simpl; [exact Hinv|].
+  apply IH; [exact Hp|]. apply (configured_step p a m e s Hp Hinv).
+Qed.
+
+(* ---------------------------------------------------------------------------------------------- *)
+(* the theorems                                                                                   *)
+(* ---------------------------------------------------------------------------------------------- *)
+Lemma init_inv_faithful : inv_faithful None (init_state None).
+Proof. split; [intros; reflexivity | split; reflexivity]. Qed.
+
+Lemma init_inv_repaired : inv_repaired None (init_state None).
+Proof. split; [reflexivity | split; reflexivity]. Qed.
+
+(* graders with configured answers -- code as it stands and repaired, every history, debug on or off *)
+Theorem configured_history_independent : forall p a h e s, known_prog p ->
+  snd (callP p (runP p (init_state (Some a)) h) e s) = specP p (Some a) h e s.
+Proof.
+  intros p a h e s Hp. unfold spec.
+  assert (I0 : inv_configured a (init_state (Some a))) by (repeat split).
+  pose proof (configured_run p a h _ Hp I0) as I1.
+  apply (configured_step p a _ e s Hp I1).
+Qed.
+
+(* graders without configured answers, repaired protocol: every history *)
+Theorem repaired_history_independent : forall h e s,
+  snd (callP call_prog_repaired (runP call_prog_repaired (init_state None) h) e s)
+  = specP call_prog_repaired None h e s.
+Proof.
+  intros h e s. unfold spec. rewrite last_supplied_step.
+  pose proof (repaired_run h None _ init_inv_repaired) as I1.
+  rewrite (repaired_outcome _ _ e s I1). destruct e; reflexivity.
+Qed.
+
+(* graders without configured answers, code as it stands: histories of clean events *)
+Theorem faithful_history_independent_clean : forall h e s,
+  forallb event_clean h = true ->
+  snd (callP call_prog_faithful (runP call_prog_faithful (init_state None) h) e s)
+  = specP call_prog_faithful None h e s.
+Proof.
+  intros h e s Hcl. unfold spec. rewrite last_supplied_step.
+  pose proof (faithful_run h None _ init_inv_faithful Hcl) as I1.
+  rewrite (faithful_outcome _ _ e s I1). destruct e; reflexivity.
+Qed.
+
+(* the full statement for the repaired protocol, configured or not *)
+Theorem repaired_full : forall configured h e s,
+  snd (callP call_prog_repaired (runP call_prog_repaired (init_state configured) h) e s)
+  = specP call_prog_repaired configured h e s.
+Proof.
+  intros [a|] h e s.
+  - apply configured_history_independent. right. reflexivity.
+  - apply repaired_history_independent.
+Qed.
+
+(* the debug log handed back by a call of the repaired protocol speaks of the current call only *)
+Definition line_current (e : option E) (s : S) (l : line E S L) : Prop :=
+  match l with
+  | LResp s' => s' = s
+  | LInferred x => e = Some x
+  | _ => True
+  end.
+
+Ltac solve_forall := repeat match goal with
+  | |- Forall _ (_ :: _) => apply Forall_cons; [simpl; auto|]
+  | |- Forall _ (_ ++ _) => apply Forall_app; split
+  | |- Forall _ [] => apply Forall_nil
+  | H : forall ls, Forall _ (map _ ls) |- Forall _ (map _ _) => apply H
+  | |- Forall _ (if _ then _ else _) => assumption
+  end.
+
+Lemma fresh_log_current : forall p configured e s v lg, known_prog p ->
+  snd (callP p (init_state configured) e s) = ORet v (Some lg) -> Forall (line_current e s) lg.
+Proof.
+  intros p configured e s v lg Hp.
+  assert (CH : forall ls : list L, Forall (line_current e s) (map (@LChk E S L) ls)).
+  { induction ls; simpl; constructor; simpl; auto. }
+  assert (DM : Forall (line_current e s) (if dm then [@LDefaults E S L] else [])).
+  { destruct dm; repeat constructor. }
+  destruct Hp as [-> | ->]; unfold call, begin_call; simpl; unfold has_answers; simpl.
+  - destruct e as [x|]; simpl.
+    + destruct configured as [a|]; simpl.
+      * destruct (o_text O s); simpl; [discriminate|]. unfold run_create; simpl.
+        destruct (o_check O (Some a) s); simpl; [|discriminate].
+        destruct (c_debug cfg); [|discriminate]. intros H; inversion H; subst.
+        solve_forall.
+      * destruct (o_infer O x); simpl; [discriminate|]. unfold run_create; simpl.
+        destruct (o_schema O x) as [|a0]; simpl; [discriminate|].
+        destruct (o_post O a0) as [[? ?]|a1]; simpl; [discriminate|].
+        destruct (o_text O s); simpl; [discriminate|].
+        destruct (o_check O (Some a1) s); simpl; [|discriminate].
+        destruct (c_debug cfg); [|discriminate]. intros H; inversion H; subst.
+        solve_forall.
+    + destruct (o_text O s); simpl; [discriminate|]. unfold run_create; simpl.
+      destruct (o_check O configured s); simpl; [|discriminate].
+      destruct (c_debug cfg); [|discriminate]. intros H; inversion H; subst.
+      solve_forall.
+  - destruct e as [x|]; simpl.
+    + destruct configured as [a|]; simpl.
+      * destruct (o_text O s); simpl; [discriminate|]. unfold run_create; simpl.
+        destruct (o_check O (Some a) s); simpl; [|discriminate].
+        destruct (c_debug cfg); [|discriminate]. intros H; inversion H; subst.
+        solve_forall.
+      * destruct (o_infer O x); simpl; [discriminate|].
+        destruct (o_schema O x) as [|a0]; simpl; [discriminate|].
+        destruct (o_post O a0) as [[? ?]|a1]; simpl; [discriminate|].
+        unfold run_create; simpl.
+        destruct (o_text O s); simpl; [discriminate|].
+        destruct (o_check O (Some a1) s); simpl; [|discriminate].
+        destruct (c_debug cfg); [|discriminate]. intros H; inversion H; subst.
+        solve_forall.
+    + destruct (o_text O s); simpl; [discriminate|]. unfold run_create; simpl.
+      destruct (o_check O configured s); simpl; [|discriminate].
+      destruct (c_debug cfg); [|discriminate]. intros H; inversion H; subst.
+      solve_forall.
+Qed.
+
+Lemma line_current_weaken : forall e s lg,
+  Forall (line_current None s) lg -> Forall (line_current e s) lg.
+Proof.
+  intros e s lg H. induction H as [|l lg Hl _ IH]; constructor; [|exact IH].
+  destruct l; simpl in *; auto. discriminate.
+Qed.
+
+Lemma filter_current : forall e s lg,
+  Forall (line_current e s) lg -> Forall (line_current None s) (filter (@not_inferred E S L) lg).
+Proof.
+  intros e s lg H. induction H as [|l lg Hl _ IH]; simpl; [constructor|].
+  destruct l; simpl in *; try (constructor; [simpl; auto | exact IH]). exact IH.
+Qed.
+
+Theorem repaired_log_current : forall configured h e s v lg,
+  snd (callP call_prog_repaired (runP call_prog_repaired (init_state configured) h) e s) = ORet v (Some lg) ->
+  Forall (line_current e s) lg.
+Proof.
+  intros configured h e s v lg. rewrite repaired_full. unfold spec.
+  assert (KP : known_prog call_prog_repaired) by (right; reflexivity).
+  destruct configured as [a|].
+  - intros H. apply line_current_weaken. eapply fresh_log_current; eauto.
+  - destruct e as [x|].
+    + intros H. eapply fresh_log_current; eauto.
+    + simpl effective.
+      destruct (snd (callP call_prog_repaired (init_state None) (last_supplied O None h) s)) as [xx|v' [lg'|]] eqn:F;
+        simpl; intros H; inversion H; subst.
+      eapply filter_current. eapply fresh_log_current; eauto.
+Qed.
+
 End ProtocolProofs.
+
+(* ---------------------------------------------------------------------------------------------- *)
+(* the negative-powers switch                                                                     *)
+(* ---------------------------------------------------------------------------------------------- *)
+Section SwitchProofs.
+Context {R : Type}.
+Notation body_t := (switch -> switch * R * bool).
+
+(* bodies may do anything with the flag (nested graders), but no code writes the default *)
+Definition keeps_default (b : body_t) : Prop := forall w, sw_default (fst (fst (b w))) = sw_default w.
+
+Lemma with_switch_faithful : forall arg (b : body_t) w,
+  with_switch cm_prog_faithful arg b w
+  = (let '(w2, r, raised) := b (mkSwitch arg (sw_default w)) in
+     (mkSwitch (sw_default w2) (sw_default w2), r, raised)).
+Proof.
+  intros arg b w. unfold with_switch; simpl.
+  destruct (b {| sw_flag := arg; sw_default := sw_default w |}) as [[w2 r] raised].
+  rewrite andb_false_r. reflexivity.
+Qed.
+
+(* on every exit (normal or exceptional) the flag is back at the default, and the body saw its own setting *)
+Theorem switch_restored : forall arg (b : body_t) w, keeps_default b ->
+  let '(w', _, _) := with_switch cm_prog_faithful arg b w in
+  sw_flag w' = sw_default w /\ sw_default w' = sw_default w.
+Proof.
+  intros arg b w K. rewrite with_switch_faithful.
+  pose proof (K (mkSwitch arg (sw_default w))) as K1.
+  destruct (b {| sw_flag := arg; sw_default := sw_default w |}) as [[w2 r] raised]. simpl in *. auto.
+Qed.
+
+Definition pristine (d : bool) : switch := mkSwitch d d.
+
+(* any sequence of checks by graders with arbitrary settings, raising or not: every check returns what it
+   returns when run alone on the pristine switch, and the switch ends pristine *)
+Theorem switch_history_independent : forall (calls : list (bool * body_t)) d,
+  Forall (fun c => keeps_default (snd c)) calls ->
+  run_switch cm_prog_faithful calls (pristine d)
+  = (pristine d,
+     map (fun c => let '(_, r, raised) := with_switch cm_prog_faithful (fst c) (snd c) (pristine d) in (r, raised)) calls).
+Proof.
+  intros calls d H. induction H as [|[arg b] calls K _ IH]; simpl; [reflexivity|].
+  rewrite with_switch_faithful. simpl in K. pose proof (K (mkSwitch arg d)) as K1. simpl.
+  destruct (b {| sw_flag := arg; sw_default := d |}) as [[w2 r] raised] eqn:B. simpl in K1. subst.
+  change {| sw_flag := sw_default w2; sw_default := sw_default w2 |} with (pristine (sw_default w2)).
+  rewrite IH. reflexivity.
+Qed.
+
+End SwitchProofs.
+
+(* a teardown outside `finally` leaves the switch off after an exception *)
+Lemma switch_needs_finally :
+  let p := mkCm [SwSet SvArg] false [SwSet SvDefault] in
+  let raising : switch -> switch * unit * bool := fun w => (w, tt, true) in
+  sw_flag (fst (fst (with_switch p false raising (pristine true)))) = false.
+Proof. reflexivity. Qed.
+
+(* ---------------------------------------------------------------------------------------------- *)
+(* concrete witnesses (expect values, inputs, answers and log lines are numbered)                  *)
+(* ---------------------------------------------------------------------------------------------- *)
+Module Witness.
+Open Scope Z_scope.
+
+Definition config_error : str := [67;111;110;102;105;103;69;114;114;111;114].    (* "ConfigError" *)
+Definition multiple_invalid : str := [77;117;108;116;105;112;108;101;73;110;118;97;108;105;100].
+Definition ce (n : Z) : exn := mkExn config_error true [n].
+Definition ok_entry : entry := mkEntry OkTrue 1%Q [].
+Definition bad_entry : entry := mkEntry OkFalse 0%Q [].
+
+(* W1 -- SingleListGrader(subgrader=StringGrader()):  expect 0 = 'a,,b' passes the schema, fails post-validation and
+   is left half-validated (answers 20); expect 1 = 'c,d' is valid (answers 11); inputs 0 = 'a,b', 1 = 'c,d' *)
+Definition O1 : oracles Z Z Z Z := mkOracles
+  (fun _ => None)
+  (fun e => inr (30 + e))
+  (fun a => if a =? 30 then inl (20, ce 1) else inr (a - 20))
+  (fun _ => None)
+  (fun a s => match a with
+              | None => CRaise (ce 2) []
+              | Some 20 => CRaise (ce 3) []
+              | Some a' => if a' - 10 =? s then CRet ok_entry [] else CRet bad_entry []
+              end)
+  (fun _ => []).
+
+Definition reused (dm : bool) (cfg : config) (O : oracles Z Z Z Z) (p : call_program) (configured : option Z)
+           (h : list (event Z Z)) (e : option Z) (s : Z) : outcome Z Z Z :=
+  snd (call dm cfg O create_prog_faithful p (run dm cfg O create_prog_faithful p (init_state configured) h) e s).
+
+Definition demanded (dm : bool) (cfg : config) (O : oracles Z Z Z Z) (p : call_program) (configured : option Z)
+           (h : list (event Z Z)) (e : option Z) (s : Z) : outcome Z Z Z :=
+  spec dm cfg O create_prog_faithful p configured h e s.
+
+(* after ('a,,b', 'a,b') the call ('c,d', 'c,d') raises; a fresh grader grades it correct *)
+Lemma w1_poison :
+  reused false (mkConfig false) O1 call_prog_faithful None [(Some 0, 0)] (Some 1) 1 = ORaise (ce 3)
+  /\ demanded false (mkConfig false) O1 call_prog_faithful None [(Some 0, 0)] (Some 1) 1 = ORet ok_entry None.
+Proof. split; vm_compute; reflexivity. Qed.
+
+(* the poison also displaces a previously supplied valid expect:  ('c,d','c,d'), ('a,,b','a,b'), (none,'c,d') *)
+Lemma w1_poison_after_valid :
+  reused false (mkConfig false) O1 call_prog_faithful None [(Some 1, 1); (Some 0, 0)] None 1 = ORaise (ce 3)
+  /\ demanded false (mkConfig false) O1 call_prog_faithful None [(Some 1, 1); (Some 0, 0)] None 1 = ORet ok_entry None.
+Proof. split; vm_compute; reflexivity. Qed.
+
+(* the same histories under the repaired protocol *)
+Lemma w1_repaired :
+  reused false (mkConfig false) O1 call_prog_repaired None [(Some 0, 0)] (Some 1) 1 = ORet ok_entry None
+  /\ reused false (mkConfig false) O1 call_prog_repaired None [(Some 1, 1); (Some 0, 0)] None 1 = ORet ok_entry None.
+Proof. split; vm_compute; reflexivity. Qed.
+
+(* W2 -- FormulaGrader(debug=True): expect 0 = 5 fails the schema; expect 1 = '1' is valid; inputs 0 = 'x', 1 = '1' *)
+Definition O2 : oracles Z Z Z Z := mkOracles
+  (fun _ => None)
+  (fun e => if e =? 0 then inl (mkExn multiple_invalid false [4]) else inr (30 + e))
+  (fun a => inr (a - 20))
+  (fun s => if s =? 5 then Some (ce 5) else None)
+  (fun a s => match a with
+              | None => CRaise (ce 2) []
+              | Some a' => if a' - 10 =? s then CRet ok_entry [7] else CRet bad_entry [7]
+              end)
+  (fun _ => []).
+
+Lemma w2_debuglog :
+  reused false (mkConfig true) O2 call_prog_faithful None [(Some 0, 0)] (Some 1) 1
+    = ORet ok_entry (Some [LVersion; LResp 0; LInferred 0; LInferred 1; LChk 7])
+  /\ demanded false (mkConfig true) O2 call_prog_faithful None [(Some 0, 0)] (Some 1) 1
+    = ORet ok_entry (Some [LVersion; LResp 1; LInferred 1; LChk 7]).
+Proof. split; vm_compute; reflexivity. Qed.
+
+(* W3 -- a valid expect with a non-text input (5) raises in ensure_text_inputs after the log was created *)
+Lemma w3_debuglog_nontext :
+  reused false (mkConfig true) O2 call_prog_faithful None [(Some 1, 5)] (Some 1) 1
+    = ORet ok_entry (Some [LVersion; LResp 5; LInferred 1; LInferred 1; LChk 7])
+  /\ demanded false (mkConfig true) O2 call_prog_faithful None [(Some 1, 5)] (Some 1) 1
+    = ORet ok_entry (Some [LVersion; LResp 1; LInferred 1; LChk 7]).
+Proof. split; vm_compute; reflexivity. Qed.
+
+Lemma w2_repaired :
+  reused false (mkConfig true) O2 call_prog_repaired None [(Some 0, 0)] (Some 1) 1
+    = ORet ok_entry (Some [LVersion; LResp 1; LInferred 1; LChk 7])
+  /\ reused false (mkConfig true) O2 call_prog_repaired None [(Some 1, 5)] (Some 1) 1
+    = ORet ok_entry (Some [LVersion; LResp 1; LInferred 1; LChk 7]).
+Proof. split; vm_compute; reflexivity. Qed.
+
+(* the full statement is false of the code as it stands *)
+Lemma faithful_full_statement_false :
+  ~ (forall dm cfg (O : oracles Z Z Z Z) configured h e s,
+       reused dm cfg O call_prog_faithful configured h e s = demanded dm cfg O call_prog_faithful configured h e s).
+Proof.
+  intros H. pose proof (H false (mkConfig false) O1 None [(Some 0, 0)] (Some 1) 1) as H1.
+  destruct w1_poison as [A B]. rewrite A, B in H1. discriminate H1.
+Qed.
+
+Lemma faithful_full_statement_false_debug :
+  ~ (forall dm cfg (O : oracles Z Z Z Z) configured h e s,
+       (forall x, match o_schema O x with inl _ => True | inr a0 => match o_post O a0 with inl _ => False | inr _ => True end end) ->
+       reused dm cfg O call_prog_faithful configured h e s = demanded dm cfg O call_prog_faithful configured h e s).
+Proof.
+  intros H.
+  assert (P : forall x, match o_schema O2 x with inl _ => True | inr a0 => match o_post O2 a0 with inl _ => False | inr _ => True end end).
+  { intros x. simpl. destruct (x =? 0); exact I. }
+  pose proof (H false (mkConfig true) O2 None [(Some 0, 0)] (Some 1) 1 P) as H1.
+  destruct w2_debuglog as [A B]. rewrite A, B in H1. discriminate H1.
+Qed.
+
+(* non-vacuity: a clean history on which the code as it stands does what the property demands, and the outcome is a grade *)
+Lemma clean_example :
+  reused false (mkConfig true) O2 call_prog_faithful None [(Some 1, 0); (None, 1); (Some 2, 2)] None 2
+    = ORet ok_entry (Some [LVersion; LResp 2; LChk 7])
+  /\ demanded false (mkConfig true) O2 call_prog_faithful None [(Some 1, 0); (None, 1); (Some 2, 2)] None 2
+    = ORet ok_entry (Some [LVersion; LResp 2; LChk 7])
+  /\ forallb (event_clean (mkConfig true) O2) [(Some 1, 0); (None, 1); (Some 2, 2)] = true.
+Proof. repeat split; vm_compute; reflexivity. Qed.
+
+End Witness.
